@@ -132,16 +132,36 @@ func checkC06(replay string) {
 	facts, factProblems, variants := 0, 0, map[string]int{}
 	base.Par(nProg, 8, func(pi int) {
 		spec := gen.Spec{Seed: r.Seed + 6000, Index: pi, Hostile: pi%2 == 0, Tests: false, Excluded: false, Impl: pi%3 == 0, PerPair: 6, Twin: pi%2 == 1, Transit: true, Unrelated: true, SameNames: pi%4 == 2}
+		spec.Tests = pi%3 == 0
 		bt := gen.Build(spec)
+		// @ignore comments in many packages and a non-default configuration for some programs: the drivers must agree on those too
+		irng := base.NewRand(r.Seed, fmt.Sprintf("c06-ign-%d", pi))
+		for _, st := range gen.Statements(bt.P) {
+			if len(st.N.Pre) > 0 && (st.IsStatement() || st.Depth == 0) && irng.Chance(1, 30) {
+				st.N.Lead = append(st.N.Lead, &gen.Ignore{Codes: base.Pick(irng, []string{"IMM", "CTOR01", "TONL, PKGO01", "ALL", "ZZ99", "pkgo03"})})
+			}
+		}
+		cfg := gen.DefaultCfg()
+		var cfgFlags, driveFlags []string
+		if pi%3 == 0 {
+			cfg.ScanTests = true
+			cfgFlags = append(cfgFlags, "-config.scan-tests=true")
+			driveFlags = append(driveFlags, "-scan-tests=true")
+		}
+		if pi%5 == 1 {
+			cfg.ExcludeChecks = []string{"CTOR02", "TONL"}
+			cfgFlags = append(cfgFlags, "-config.exclude-checks=ctor02,TONL")
+			driveFlags = append(driveFlags, "-exclude-checks=ctor02,TONL")
+		}
 		files := gen.Render(bt.P, gen.RenderOpts{})
 		root := ggrun.Scratch()
 		defer os.RemoveAll(root)
 		ggrun.WriteTree(root, files)
-		fs := map[string]string{}
+		fs := map[string]string{"config.txt": fmt.Sprintf("%+v", cfg)}
 		for k, v := range files {
 			fs["module/"+k] = v
 		}
-		ref := ggrun.Run(ggrun.Opts{Dir: root, Args: []string{"./..."}})
+		ref := ggrun.Run(ggrun.Opts{Dir: root, Args: append(append([]string{}, cfgFlags...), "./...")})
 		if bad, why := ref.Crashed(false); bad {
 			if ok, out := ggrun.CompileCheck(root); !ok {
 				base.Harness("generated program does not compile: %s", out)
@@ -152,7 +172,7 @@ func checkC06(replay string) {
 		all := setIn(ref.Diags, nil)
 		// every kind of annotation must take effect in importers exactly as in the declaring package: the reference model
 		// judges each line of the importing packages (exported and unexported types, methods, fields, constructor lists, allow-lists)
-		exp := gen.Evaluate(bt.P, gen.DefaultCfg(), root)
+		exp := gen.Evaluate(bt.P, cfg, root)
 		mm, judged, _ := gen.Compare(bt.P, exp, ggrun.ToObs(ref.Diags))
 		r.Eval(judged)
 		seenKey := map[string]bool{}
@@ -188,7 +208,7 @@ func checkC06(replay string) {
 			leafDirs[d] = true
 			leafPat = append(leafPat, "./"+d)
 		}
-		leaf := ggrun.Run(ggrun.Opts{Dir: root, Args: leafPat})
+		leaf := ggrun.Run(ggrun.Opts{Dir: root, Args: append(append([]string{}, cfgFlags...), leafPat...)})
 		if bad, why := leaf.Crashed(false); bad {
 			r.Violate("crash/leaf-only", why, fs)
 		} else {
@@ -208,7 +228,7 @@ func checkC06(replay string) {
 				continue
 			}
 			base.Shuffle(rng, pat)
-			res := ggrun.Run(ggrun.Opts{Dir: root, Args: pat})
+			res := ggrun.Run(ggrun.Opts{Dir: root, Args: append(append([]string{}, cfgFlags...), pat...)})
 			if bad, why := res.Crashed(false); bad {
 				r.Violate("crash/subset", why, fs)
 				continue
@@ -216,15 +236,16 @@ func checkC06(replay string) {
 			compare("standalone-random-subset", setIn(res.Diags, nil), sub)
 		}
 		// vet driver
-		vet, err := runVet(root, ggrun.Bin, nil, "./...")
+		vet, err := runVet(root, ggrun.Bin, cfgFlags, "./...")
 		if err != nil || len(vet.Errors) > 0 {
 			r.Violate("driver/vet-failed", fmt.Sprintf("program %d: go vet -vettool failed: %v %v\n%s", pi, err, vet.Errors, head(vet.Stdout, 2000)), fs)
 		} else {
 			compare("go-vet-vettool", setIn(vet.Diags, nil), nil)
 		}
 		// in-process driver, with and without fact sanity check
-		for _, extra := range [][]string{{"-tests=false"}, {"-tests=false", "-sanity"}, {"-tests=false", "-sequential"}} {
-			dr := runDrive(vcheckBin, root, extra, "./...")
+		tf := fmt.Sprintf("-tests=%v", spec.Tests)
+		for _, extra := range [][]string{{tf}, {tf, "-sanity"}, {tf, "-sequential"}} {
+			dr := runDrive(vcheckBin, root, append(append([]string{}, extra...), driveFlags...), "./...")
 			name := "in-process" + strings.Join(extra[1:], "")
 			if dr.Err != "" || len(dr.Sum.ActionErrors) > 0 || len(dr.Sum.LoadErrors) > 0 {
 				r.Violate("driver/"+name+"-failed", fmt.Sprintf("program %d: %s %v %v\n%s", pi, dr.Err, dr.Sum.ActionErrors, dr.Sum.LoadErrors, head(dr.Raw, 2500)), fs)
@@ -246,12 +267,18 @@ func checkC06(replay string) {
 		}
 		// independence: toggle annotations of d0's first type; packages that do not directly import d0 must be unaffected
 		bt2 := gen.Build(spec)
+		irng2 := base.NewRand(r.Seed, fmt.Sprintf("c06-ign-%d", pi))
+		for _, st := range gen.Statements(bt2.P) {
+			if len(st.N.Pre) > 0 && (st.IsStatement() || st.Depth == 0) && irng2.Chance(1, 30) {
+				st.N.Lead = append(st.N.Lead, &gen.Ignore{Codes: base.Pick(irng2, []string{"IMM", "CTOR01", "TONL, PKGO01", "ALL", "ZZ99", "pkgo03"})})
+			}
+		}
 		gen.FlipAnnotations(bt2)
 		files2 := gen.Render(bt2.P, gen.RenderOpts{})
 		root2 := ggrun.Scratch()
 		defer os.RemoveAll(root2)
 		ggrun.WriteTree(root2, files2)
-		res2 := ggrun.Run(ggrun.Opts{Dir: root2, Args: []string{"./..."}})
+		res2 := ggrun.Run(ggrun.Opts{Dir: root2, Args: append(append([]string{}, cfgFlags...), "./...")})
 		if bad, why := res2.Crashed(false); bad {
 			if ok, out := ggrun.CompileCheck(root2); !ok {
 				base.Harness("flipped program does not compile: %s", out)
